@@ -1,8 +1,856 @@
-//! engine `huff` (stub — to be written)
+//! engine `huff` — C17: prefix codes are complete, length-limited, canonical and serialise
+//! faithfully.
+//!
+//! Real code under test (`brotli::enc::entropy_encode`, `brotli::enc::brotli_bit_stream`):
+//! `BrotliCreateHuffmanTree`, `BrotliConvertBitDepthsToSymbols`, `BrotliWriteHuffmanTree`,
+//! `BrotliOptimizeHuffmanCountsForRle`, `BrotliStoreHuffmanTree`,
+//! `BrotliBuildAndStoreHuffmanTreeFast` and — through the proposed hook
+//! `verif_hooks::build_and_store_huffman_tree` (cfg `huff_hook`) — `BuildAndStoreHuffmanTree`.
+//!
+//! * correspondence lines = the protocol of `lean/BV/Drive/Huffman.lean`
+//!   (`huff tree|symbols|rle|store|build|fast|optrle|exh …`), answered by the real code;
+//! * search stage = property oracle on the real code alone: support exact, length limit
+//!   (15 / 5 / 14), Kraft equality, canonical bit patterns (RFC 7932 §3.2, written here
+//!   independently), RLE entries expand back (RFC §3.5 repeat rules), and everything a
+//!   builder stores is parsed back by an independent RFC §3.4/§3.5 reader to the depths.
+//!
+//! Generators (all from one PRNG state): exhaustive count vectors over <= 6 symbols with
+//! counts 0..12 (quick: n <= 4 complete + contiguous slices of n = 5, 6; thorough: all),
+//! 18-symbol Fibonacci-like skews for limit 5, random alphabets 2..704 with
+//! geometric / Fibonacci / flat / sparse / run-structured shapes and counts up to 2^24 with
+//! histogram total <= 2^30 (the domain in which C17.lean proves termination and absence of
+//! `u32` wrap), the ONE known wrap witness (signature `huff:count-sum-wraps-u32`), and a
+//! malformed stream (depths > 15, incomplete depth vectors, arbitrary bytes) that only the
+//! correspondence judges.
+//!
+//! non-trivial case = a distinct histogram with at least two occurring symbols on which
+//! every builder returned and was judged by every oracle.
+//!
+//! Corpus: `/verif/corpus/huff/*.txt`, one request line per file (`huff tree 15 1,2,3`);
+//! run first; `tree`/`build`/`fast` lines are also judged by the oracle.
+use crate::prng::Rng;
 use crate::util::*;
+use alloc_stdlib::StandardAlloc;
+use brotli::enc::brotli_bit_stream::{BrotliBuildAndStoreHuffmanTreeFast, BrotliStoreHuffmanTree};
+use brotli::enc::entropy_encode::{
+    BrotliConvertBitDepthsToSymbols, BrotliCreateHuffmanTree, BrotliOptimizeHuffmanCountsForRle,
+    BrotliWriteHuffmanTree, HuffmanTree,
+};
+use std::panic::{catch_unwind, AssertUnwindSafe};
+
+const MAX_TREE: usize = 2 * 704 + 1;
+const STORAGE: usize = 8192;
+
+// ---------------------------------------------------------------- real code, panics caught
+
+fn quiet<T>(f: impl FnOnce() -> T) -> Option<T> {
+    catch_unwind(AssertUnwindSafe(f)).ok()
+}
+
+fn real_tree(data: &[u32], limit: i32) -> Option<Vec<u8>> {
+    quiet(|| {
+        let n = data.len();
+        let mut tree = vec![HuffmanTree::default(); 2 * n + 1];
+        let mut depth = vec![0u8; n];
+        BrotliCreateHuffmanTree(data, n, limit, &mut tree, &mut depth);
+        depth
+    })
+}
+fn real_symbols(depth: &[u8]) -> Option<Vec<u16>> {
+    quiet(|| {
+        let mut bits = vec![0u16; depth.len()];
+        BrotliConvertBitDepthsToSymbols(depth, depth.len(), &mut bits);
+        bits
+    })
+}
+fn real_rle(depth: &[u8]) -> Option<(Vec<u8>, Vec<u8>)> {
+    quiet(|| {
+        let cap = depth.len().max(704);
+        let mut t = vec![0u8; cap];
+        let mut e = vec![0u8; cap];
+        let mut sz = 0usize;
+        BrotliWriteHuffmanTree(depth, depth.len(), &mut sz, &mut t, &mut e);
+        t.truncate(sz);
+        e.truncate(sz);
+        (t, e)
+    })
+}
+fn real_store(depth: &[u8]) -> Option<(usize, Vec<u8>)> {
+    quiet(|| {
+        let mut tree = vec![HuffmanTree::default(); MAX_TREE];
+        let mut st = vec![0u8; STORAGE];
+        let mut ix = 0usize;
+        BrotliStoreHuffmanTree(depth, depth.len(), &mut tree, &mut ix, &mut st);
+        (ix, st)
+    })
+}
+fn real_fast(h: &[u32], max_bits: usize) -> Option<(Vec<u8>, Vec<u16>, usize, Vec<u8>)> {
+    quiet(|| {
+        let n = h.len();
+        let mut m = StandardAlloc::default();
+        let mut st = vec![0u8; STORAGE];
+        let mut depth = vec![0u8; n];
+        let mut bits = vec![0u16; n];
+        let mut ix = 0usize;
+        let total: usize = h.iter().map(|x| *x as usize).sum();
+        BrotliBuildAndStoreHuffmanTreeFast(&mut m, h, total, max_bits, &mut depth, &mut bits, &mut ix, &mut st);
+        (depth, bits, ix, st)
+    })
+}
+#[cfg(huff_hook)]
+fn real_build(h: &[u32], alphabet_size: usize) -> Option<(Vec<u8>, Vec<u16>, usize, Vec<u8>)> {
+    quiet(|| {
+        let n = h.len();
+        let mut tree = vec![HuffmanTree::default(); MAX_TREE];
+        let mut st = vec![0u8; STORAGE];
+        let mut depth = vec![0u8; n];
+        let mut bits = vec![0u16; n];
+        let ix = brotli::enc::brotli_bit_stream::verif_hooks::build_and_store_huffman_tree(
+            h, n, alphabet_size, &mut tree, &mut depth, &mut bits, &mut st);
+        (depth, bits, ix, st)
+    })
+}
+#[cfg(not(huff_hook))]
+fn real_build(_h: &[u32], _alphabet_size: usize) -> Option<(Vec<u8>, Vec<u16>, usize, Vec<u8>)> {
+    None
+}
+const HAVE_BUILD: bool = cfg!(huff_hook);
+
+fn real_optrle(c: &[u32]) -> Option<Vec<u32>> {
+    quiet(|| {
+        let mut c = c.to_vec();
+        let mut g = vec![0u8; c.len()];
+        let n = c.len();
+        BrotliOptimizeHuffmanCountsForRle(n, &mut c, &mut g);
+        c
+    })
+}
+
+// ---------------------------------------------------------------- line protocol
+
+fn show<T: std::fmt::Display>(v: &[T]) -> String {
+    if v.is_empty() {
+        "-".into()
+    } else {
+        v.iter().map(|x| x.to_string()).collect::<Vec<_>>().join(",")
+    }
+}
+fn show_bits(n: usize, st: &[u8]) -> String {
+    format!("{} {}", n, hex(&st[..(n + 7) / 8]))
+}
+fn parse_list(s: &str) -> Vec<u64> {
+    if s == "-" {
+        vec![]
+    } else {
+        s.split(',').map(|x| x.parse().unwrap_or(0)).collect()
+    }
+}
+fn dbl(r: Option<(Vec<u8>, Vec<u16>, usize, Vec<u8>)>) -> String {
+    match r {
+        Some((d, b, n, st)) => format!("{};{};{}", show(&d), show(&b), show_bits(n, &st)),
+        None => "panic".into(),
+    }
+}
+
+/// the implementation's answer to one request line of the `huff` driver protocol
+fn answer(line: &str) -> String {
+    let t: Vec<&str> = line.split(' ').collect();
+    if t.len() < 2 || t[0] != "huff" {
+        return "bad-op".into();
+    }
+    match (t[1], t.len()) {
+        ("tree", 4) => {
+            let d: Vec<u32> = parse_list(t[3]).iter().map(|x| *x as u32).collect();
+            real_tree(&d, t[2].parse().unwrap_or(15)).map(|d| show(&d)).unwrap_or("panic".into())
+        }
+        ("symbols", 3) => {
+            let d: Vec<u8> = parse_list(t[2]).iter().map(|x| *x as u8).collect();
+            real_symbols(&d).map(|b| show(&b)).unwrap_or("panic".into())
+        }
+        ("rle", 3) => {
+            let d: Vec<u8> = parse_list(t[2]).iter().map(|x| *x as u8).collect();
+            real_rle(&d).map(|(a, b)| format!("{};{}", show(&a), show(&b))).unwrap_or("panic".into())
+        }
+        ("store", 3) => {
+            let d: Vec<u8> = parse_list(t[2]).iter().map(|x| *x as u8).collect();
+            real_store(&d).map(|(n, st)| show_bits(n, &st)).unwrap_or("panic".into())
+        }
+        ("build", 4) => {
+            let h: Vec<u32> = parse_list(t[3]).iter().map(|x| *x as u32).collect();
+            dbl(real_build(&h, t[2].parse().unwrap_or(0)))
+        }
+        ("fast", 4) => {
+            let h: Vec<u32> = parse_list(t[3]).iter().map(|x| *x as u32).collect();
+            dbl(real_fast(&h, t[2].parse().unwrap_or(0)))
+        }
+        ("optrle", 3) => {
+            let c: Vec<u32> = parse_list(t[2]).iter().map(|x| *x as u32).collect();
+            real_optrle(&c).map(|c| show(&c)).unwrap_or("panic".into())
+        }
+        ("exh", 6) => {
+            let p: Vec<u64> = t[2..].iter().map(|x| x.parse().unwrap_or(0)).collect();
+            exh_digest(p[0] as usize, p[1], p[2], p[3] != 0).to_string()
+        }
+        _ => "bad-op".into(),
+    }
+}
+
+// ---------------------------------------------------------------- exhaustive digest (mirrors `exhStep`)
+
+fn fold_list<T: Copy + Into<u64>>(mut h: u64, l: &[T]) -> u64 {
+    h = fnv_step(h, l.len() as u64);
+    for x in l {
+        h = fnv_step(h, (*x).into());
+    }
+    h
+}
+fn fold_bits(h: u64, n: usize, st: &[u8]) -> u64 {
+    fold_list(fnv_step(h, n as u64), &st[..(n + 7) / 8])
+}
+fn exh_vector(nsym: usize, idx: u64) -> Vec<u32> {
+    let mut v = vec![0u32; nsym];
+    let mut x = idx;
+    for i in 0..nsym {
+        v[i] = (x % 13) as u32;
+        x /= 13;
+    }
+    v
+}
+fn exh_step(nsym: usize, with_build: bool, mut h: u64, idx: u64) -> u64 {
+    const PANIC: u64 = 0xdead;
+    let v = exh_vector(nsym, idx);
+    let nz = v.iter().filter(|x| **x != 0).count();
+    h = fnv_step(h, idx);
+    if nz >= 1 {
+        let t15 = real_tree(&v, 15);
+        h = match &t15 { Some(d) => fold_list(h, d), None => fnv_step(h, PANIC) };
+        h = match real_tree(&v, 5) { Some(d) => fold_list(h, &d), None => fnv_step(h, PANIC) };
+        if let Some(d) = t15 {
+            h = match real_symbols(&d) { Some(b) => fold_list(h, &b), None => fnv_step(h, PANIC) };
+            if nz >= 2 {
+                h = match real_store(&d) { Some((n, st)) => fold_bits(h, n, &st), None => fnv_step(h, PANIC) };
+            }
+        }
+    }
+    h = match real_fast(&v, 3) {
+        Some((d, b, n, st)) => fold_bits(fold_list(fold_list(h, &d), &b), n, &st),
+        None => fnv_step(h, PANIC),
+    };
+    if with_build {
+        h = match real_build(&v, nsym) {
+            Some((d, b, n, st)) => fold_bits(fold_list(fold_list(h, &d), &b), n, &st),
+            None => fnv_step(h, PANIC),
+        };
+    }
+    h
+}
+fn exh_digest(nsym: usize, lo: u64, hi: u64, with_build: bool) -> u64 {
+    let mut h = FNV_INIT;
+    for idx in lo..hi {
+        h = exh_step(nsym, with_build, h, idx);
+    }
+    h
+}
+
+// ---------------------------------------------------------------- independent RFC 7932 side
+
+/// RFC 7932 §3.2: canonical code values (MSB-first) from code lengths
+fn rfc_canonical(lens: &[u8]) -> Vec<u32> {
+    let maxl = 16usize;
+    let mut bl_count = vec![0u32; maxl + 1];
+    for &l in lens {
+        if l != 0 {
+            bl_count[l as usize] += 1;
+        }
+    }
+    let mut next = vec![0u32; maxl + 2];
+    let mut code = 0u32;
+    for b in 1..=maxl {
+        code = (code + bl_count[b - 1]) << 1;
+        next[b] = code;
+    }
+    lens.iter()
+        .map(|&l| {
+            if l == 0 {
+                0
+            } else {
+                let c = next[l as usize];
+                next[l as usize] += 1;
+                c
+            }
+        })
+        .collect()
+}
+fn rev_bits(n: u32, v: u32) -> u32 {
+    let mut r = 0;
+    for i in 0..n {
+        if v >> i & 1 != 0 {
+            r |= 1 << (n - 1 - i);
+        }
+    }
+    r
+}
+fn kraft(lens: &[u8], limit: u32) -> u64 {
+    lens.iter().filter(|l| **l != 0).map(|&l| if (l as u32) <= limit { 1u64 << (limit - l as u32) } else { 1u64 << 40 }).sum()
+}
+
+/// RFC 7932 §3.5: expand (code length symbol, extra bits) entries
+fn rfc_expand(syms: &[u8], extras: &[u8]) -> Result<Vec<u8>, String> {
+    let mut out: Vec<u8> = vec![];
+    let mut prev_nz = 8u8;
+    let mut rep_val: i32 = -1;
+    let mut rep_cnt = 0usize;
+    for (i, &s) in syms.iter().enumerate() {
+        let e = extras[i] as usize;
+        if s < 16 {
+            if e != 0 { return Err(format!("extra bits {} on literal {}", e, s)); }
+            out.push(s);
+            if s != 0 { prev_nz = s; }
+            rep_val = -1;
+            rep_cnt = 0;
+        } else if s == 16 || s == 17 {
+            let (val, base, lim) = if s == 16 { (prev_nz, 4usize, 4usize) } else { (0u8, 8usize, 8usize) };
+            if e >= lim { return Err(format!("extra bits {} out of range for {}", e, s)); }
+            let old = if rep_val == val as i32 { rep_cnt } else { 0 };
+            let new = if old > 0 { base * (old - 2) + 3 + e } else { 3 + e };
+            for _ in old..new { out.push(val); }
+            rep_val = val as i32;
+            rep_cnt = new;
+        } else {
+            return Err(format!("code length symbol {}", s));
+        }
+    }
+    Ok(out)
+}
+
+struct BitReader<'a> { data: &'a [u8], pos: usize, end: usize }
+impl<'a> BitReader<'a> {
+    fn bit(&mut self) -> Result<u32, String> {
+        if self.pos >= self.end { return Err("out of bits".into()); }
+        let b = (self.data[self.pos >> 3] >> (self.pos & 7)) & 1;
+        self.pos += 1;
+        Ok(b as u32)
+    }
+    fn bits(&mut self, n: u32) -> Result<u32, String> {
+        let mut v = 0;
+        for i in 0..n { v |= self.bit()? << i; }
+        Ok(v)
+    }
+    /// decode one symbol of the prefix code `lens` (bits of a code word arrive MSB first)
+    fn symbol(&mut self, lens: &[u8], codes: &[u32]) -> Result<usize, String> {
+        let used: Vec<usize> = (0..lens.len()).filter(|&i| lens[i] != 0).collect();
+        if used.len() == 1 { return Ok(used[0]); }
+        let mut acc = 0u32;
+        for l in 1..=15u8 {
+            acc = (acc << 1) | self.bit()?;
+            for &s in &used {
+                if lens[s] == l && codes[s] == acc { return Ok(s); }
+            }
+        }
+        Err("no code word matches".into())
+    }
+}
+
+/// RFC 7932 §3.4 / §3.5: read one prefix code description; returns the code lengths.
+/// Everything must be consumed exactly (`end` = number of bits the encoder reported).
+fn rfc_read_prefix_code(data: &[u8], nbits: usize, alphabet_size: usize) -> Result<Vec<u8>, String> {
+    let mut r = BitReader { data, pos: 0, end: nbits };
+    let mut lens = vec![0u8; alphabet_size];
+    let hskip = r.bits(2)?;
+    if hskip == 1 {
+        let nsym = r.bits(2)? as usize + 1;
+        let mut w = 0u32;
+        while alphabet_size > 1 && ((alphabet_size - 1) >> w) != 0 { w += 1; }
+        let mut syms = vec![];
+        for _ in 0..nsym {
+            let s = r.bits(w)? as usize;
+            if s >= alphabet_size { return Err(format!("simple symbol {} >= alphabet {}", s, alphabet_size)); }
+            if syms.contains(&s) { return Err(format!("simple symbol {} twice", s)); }
+            syms.push(s);
+        }
+        let shape: &[u8] = match nsym {
+            1 => &[0],
+            2 => &[1, 1],
+            3 => &[1, 2, 2],
+            _ => if r.bits(1)? == 0 { &[2, 2, 2, 2] } else { &[1, 2, 3, 3] },
+        };
+        for (i, &s) in syms.iter().enumerate() { lens[s] = shape[i]; }
+    } else {
+        const ORDER: [usize; 18] = [1, 2, 3, 4, 0, 5, 17, 6, 16, 7, 8, 9, 10, 11, 12, 13, 14, 15];
+        let mut cl = [0u8; 18];
+        let mut space = 32i32;
+        let mut num = 0;
+        for i in hskip as usize..18 {
+            // 0 -> 00, 3 -> 10, 4 -> 01, 2 -> 011, 1 -> 0111, 5 -> 1111 (right to left)
+            let v = match r.bits(2)? {
+                0 => 0u8,
+                2 => 3,
+                1 => 4,
+                _ => if r.bit()? == 0 { 2 } else if r.bit()? == 0 { 1 } else { 5 },
+            };
+            cl[ORDER[i]] = v;
+            if v != 0 {
+                space -= 32 >> v;
+                num += 1;
+                if space <= 0 { break; }
+            }
+        }
+        if !(num == 1 || space == 0) { return Err(format!("code length code: {} codes, space {}", num, space)); }
+        let clcodes = rfc_canonical(&cl);
+        let mut syms = vec![];
+        let mut extras = vec![];
+        let mut space = 32768i64;
+        let mut count = 0usize;
+        let mut prev_nz = 8u8;
+        let mut rep_val: i32 = -1;
+        let mut rep_cnt = 0usize;
+        while count < alphabet_size && space > 0 {
+            let s = r.symbol(&cl, &clcodes)? as u8;
+            if s < 16 {
+                syms.push(s); extras.push(0u8);
+                lens[count] = s; count += 1;
+                if s != 0 { prev_nz = s; space -= 32768 >> s; }
+                rep_val = -1; rep_cnt = 0;
+            } else {
+                let (val, base, nb) = if s == 16 { (prev_nz, 4usize, 2) } else { (0u8, 8usize, 3) };
+                let e = r.bits(nb)? as usize;
+                syms.push(s); extras.push(e as u8);
+                let old = if rep_val == val as i32 { rep_cnt } else { 0 };
+                let new = if old > 0 { base * (old - 2) + 3 + e } else { 3 + e };
+                if count + (new - old) > alphabet_size { return Err("repeat runs past the alphabet".into()); }
+                for _ in old..new { lens[count] = val; count += 1; if val != 0 { space -= 32768 >> val; } }
+                rep_val = val as i32; rep_cnt = new;
+            }
+        }
+        if space != 0 { return Err(format!("code space left {}", space)); }
+    }
+    if r.pos != nbits { return Err(format!("{} bits not consumed", nbits - r.pos)); }
+    Ok(lens)
+}
+
+// ---------------------------------------------------------------- oracle
+
+/// `5,7*3,0*2` = 5,7,7,7,0,0 (replayable, short)
+fn show_runs(h: &[u32]) -> String {
+    let mut parts = vec![];
+    let mut i = 0;
+    while i < h.len() {
+        let mut j = i;
+        while j < h.len() && h[j] == h[i] { j += 1; }
+        if j - i >= 3 { parts.push(format!("{}*{}", h[i], j - i)); } else { for _ in i..j { parts.push(h[i].to_string()); } }
+        i = j;
+    }
+    if parts.is_empty() { "-".into() } else { parts.join(",") }
+}
+fn case_json(kind: &str, limit: u32, h: &[u32]) -> String {
+    format!("{{\"kind\": {}, \"limit\": {}, \"alphabet\": {}, \"histogram\": {}}}", jstr(kind), limit, h.len(), jstr(&show_runs(h)))
+}
+
+/// support exact, limit, Kraft equality, canonical bits for one (histogram, depths, bits)
+fn judge_code(rep: &mut Report, kind: &str, limit: u32, h: &[u32], depth: &[u8], bits: Option<&[u16]>) -> bool {
+    let mut ok = true;
+    let n = h.len();
+    for i in 0..n {
+        if (h[i] != 0) != (depth[i] != 0) {
+            rep.violation("huff:support", &format!("{}: symbol {} count {} depth {}", kind, i, h[i], depth[i]), case_json(kind, limit, h));
+            ok = false;
+            break;
+        }
+    }
+    if let Some(&m) = depth.iter().max() {
+        if m as u32 > limit {
+            rep.violation("huff:limit", &format!("{}: depth {} > {}", kind, m, limit), case_json(kind, limit, h));
+            ok = false;
+        } else if m as u32 == limit {
+            rep.count(&format!("limit{}.reached", limit));
+        }
+    }
+    let k = kraft(depth, limit);
+    if k != 1u64 << limit {
+        rep.violation("huff:kraft", &format!("{}: Kraft sum {} / 2^{}", kind, k, limit), case_json(kind, limit, h));
+        ok = false;
+    }
+    if let Some(bits) = bits {
+        let canon = rfc_canonical(depth);
+        for i in 0..n {
+            if depth[i] != 0 && bits[i] as u32 != rev_bits(depth[i] as u32, canon[i]) {
+                rep.violation("huff:canonical", &format!("{}: symbol {} depth {} bits {} canonical {}", kind, i, depth[i], bits[i], canon[i]), case_json(kind, limit, h));
+                ok = false;
+                break;
+            }
+        }
+    }
+    ok
+}
+
+fn trimmed(d: &[u8]) -> &[u8] {
+    let mut n = d.len();
+    while n > 0 && d[n - 1] == 0 { n -= 1; }
+    &d[..n]
+}
+
+/// everything C17 asks of one histogram; returns true when all builders returned and all oracles passed
+fn judge(rep: &mut Report, h: &[u32], expect_wrap: bool) -> bool {
+    rep.evaluations += 1;
+    let n = h.len();
+    let nz = h.iter().filter(|x| **x != 0).count();
+    let total: u64 = h.iter().map(|x| *x as u64).sum();
+    let mut ok = true;
+    let panic_sig = |what: &str| -> String {
+        if total >= (1u64 << 32) - 1 { "huff:count-sum-wraps-u32".to_string() } else { format!("huff:panic:{}", what) }
+    };
+    rep.count(match n { 0..=6 => "alphabet.le6", 7..=12 => "alphabet.7_12", 13..=56 => "alphabet.13_56(shell)", 57..=256 => "alphabet.57_256(shell,all gaps)", _ => "alphabet.257_704" });
+    if nz >= 2 {
+        // ---- exact builder, limit 15 (and 5 for small alphabets)
+        for &limit in &[15u32, 5u32] {
+            if limit == 5 && (n > 18 || nz > 18) { continue; }
+            match real_tree(h, limit as i32) {
+                None => { rep.violation(&panic_sig("tree"), &format!("BrotliCreateHuffmanTree(limit {}) panicked", limit), case_json("tree", limit, h)); ok = false; }
+                Some(depth) => {
+                    let bits = real_symbols(&depth);
+                    if bits.is_none() { rep.violation("huff:panic:symbols", "BrotliConvertBitDepthsToSymbols panicked", case_json("tree", limit, h)); ok = false; }
+                    ok &= judge_code(rep, "tree", limit, h, &depth, bits.as_deref());
+                    if limit == 15 {
+                        // RLE entries expand back
+                        match real_rle(&depth) {
+                            None => { rep.violation("huff:panic:rle", "BrotliWriteHuffmanTree panicked", case_json("rle", limit, h)); ok = false; }
+                            Some((s, e)) => {
+                                for w in s.windows(2) { if w[0] == 16 && w[1] == 16 { rep.count("rle.chain16"); break; } }
+                                for w in s.windows(2) { if w[0] == 17 && w[1] == 17 { rep.count("rle.chain17"); break; } }
+                                if s.contains(&16) { rep.count("rle.code16"); }
+                                if s.contains(&17) { rep.count("rle.code17"); }
+                                match rfc_expand(&s, &e) {
+                                    Ok(x) if x == trimmed(&depth) => {}
+                                    Ok(_) => { rep.violation("huff:rle-expand", "RLE entries expand to a different vector", case_json("rle", limit, h)); ok = false; }
+                                    Err(m) => { rep.violation("huff:rle-expand", &m, case_json("rle", limit, h)); ok = false; }
+                                }
+                            }
+                        }
+                        // the complex description is parsed back
+                        match real_store(&depth) {
+                            None => { rep.violation("huff:panic:store", "BrotliStoreHuffmanTree panicked", case_json("store", limit, h)); ok = false; }
+                            Some((nb, st)) => match rfc_read_prefix_code(&st, nb, n) {
+                                Ok(l) if l == depth => { rep.count("store.parsed_back"); }
+                                Ok(_) => { rep.violation("huff:store-roundtrip", "stored tree parses to other depths", case_json("store", limit, h)); ok = false; }
+                                Err(m) => { rep.violation("huff:store-roundtrip", &m, case_json("store", limit, h)); ok = false; }
+                            },
+                        }
+                    }
+                }
+            }
+        }
+    }
+    // ---- BuildAndStoreHuffmanTree (needs the hook)
+    if HAVE_BUILD && n >= 1 {
+        match real_build(h, n) {
+            None => { rep.violation(&panic_sig("build"), "BuildAndStoreHuffmanTree panicked", case_json("build", 15, h)); ok = false; }
+            Some((depth, bits, nb, st)) => {
+                if nz >= 2 { ok &= judge_code(rep, "build", 15, h, &depth, Some(&bits)); }
+                match nz { 0 | 1 => rep.count("build.single_symbol"), 2 => rep.count("build.simple2"), 3 => rep.count("build.simple3"), 4 => rep.count("build.simple4"), _ => rep.count("build.complex") }
+                let want: Vec<u8> = if nz >= 2 { depth.clone() } else { vec![0u8; n] };
+                match rfc_read_prefix_code(&st, nb, n) {
+                    Ok(l) if l == want => {}
+                    Ok(_) => { rep.violation("huff:store-roundtrip", "BuildAndStoreHuffmanTree: description parses to other depths", case_json("build", 15, h)); ok = false; }
+                    Err(m) => { rep.violation("huff:store-roundtrip", &format!("build: {}", m), case_json("build", 15, h)); ok = false; }
+                }
+            }
+        }
+    }
+    // ---- fast builder (quality <= 2), limit 14
+    if n >= 1 {
+        let mut mb = 0usize;
+        while n > 1 && ((n - 1) >> mb) != 0 { mb += 1; }
+        match real_fast(h, mb) {
+            None => { rep.violation(&panic_sig("fast"), "BrotliBuildAndStoreHuffmanTreeFast panicked", case_json("fast", 14, h)); ok = false; }
+            Some((depth, bits, nb, st)) => {
+                if nz >= 2 { ok &= judge_code(rep, "fast", 14, h, &depth, Some(&bits)); }
+                match nz { 0 | 1 => rep.count("fast.single_symbol"), 2 => rep.count("fast.simple2"), 3 => rep.count("fast.simple3"), 4 => rep.count("fast.simple4"), _ => rep.count("fast.static_code") }
+                let want: Vec<u8> = if nz >= 2 { depth.clone() } else { vec![0u8; n] };
+                match rfc_read_prefix_code(&st, nb, n) {
+                    Ok(l) if l == want => {}
+                    Ok(_) => { rep.violation("huff:store-roundtrip", "fast builder: description parses to other depths", case_json("fast", 14, h)); ok = false; }
+                    Err(m) => { rep.violation("huff:store-roundtrip", &format!("fast: {}", m), case_json("fast", 14, h)); ok = false; }
+                }
+            }
+        }
+    }
+    let _ = expect_wrap;
+    if ok && nz >= 2 { rep.nontrivial += 1; }
+    ok
+}
+
+// ---------------------------------------------------------------- generators
+
+fn fib_like(kind: u64, i: u64) -> u64 {
+    // kind 0: Fibonacci, 1: powers of two, 2: tribonacci, 3: (3/2)^i
+    match kind {
+        0 => { let (mut a, mut b) = (1u64, 1u64); for _ in 0..i { let c = a + b; a = b; b = c; } a }
+        1 => 1u64 << i.min(40),
+        2 => { let (mut a, mut b, mut c) = (1u64, 1u64, 2u64); for _ in 0..i { let d = a + b + c; a = b; b = c; c = d; } a }
+        _ => { let mut x = 1f64; for _ in 0..i { x *= 1.5; } x as u64 + 1 }
+    }
+}
+
+/// the 18-symbol family for limit 5: shape x offset x number of used symbols x rotation x direction
+fn skew18(id: u64) -> Vec<u32> {
+    let kind = id % 4;
+    let off = id / 4 % 9;
+    let used = 2 + id / 36 % 17;
+    let rot = id / 612 % 18;
+    let rev = id / 11016 % 2;
+    let mut v = vec![0u32; 18];
+    for k in 0..used {
+        let c = fib_like(kind, k + off).min(1 << 24) as u32;
+        let pos = ((if rev == 1 { used - 1 - k } else { k }) + rot) % 18;
+        v[pos as usize] = c;
+    }
+    v
+}
+const SKEW18_COUNT: u64 = 4 * 9 * 17 * 18 * 2;
+
+fn cap_total(v: &mut Vec<u32>, cap: u64) {
+    // scale down until the total is within the cap (keeps zero / non-zero pattern)
+    loop {
+        let t: u64 = v.iter().map(|x| *x as u64).sum();
+        if t <= cap { break; }
+        for x in v.iter_mut() { if *x > 1 { *x = (*x + 1) / 2; } }
+    }
+}
+
+fn big(rng: &mut Rng, maxlog: u64) -> u32 {
+    let s = rng.below(maxlog);
+    1 + rng.below(1u64 << s) as u32
+}
+
+fn random_histogram(rng: &mut Rng) -> Vec<u32> {
+    let n = match rng.below(10) {
+        0 => rng.range(2, 6),
+        1 => rng.range(7, 12),
+        2 => *rng.pick(&[13u64, 14, 18, 26, 56, 57, 58, 64]),
+        3 | 4 => rng.range(13, 140),
+        5 | 6 => *rng.pick(&[256u64, 258, 272, 520, 544, 704]),
+        _ => rng.range(141, 704),
+    } as usize;
+    let shape = rng.below(8);
+    let mut v = vec![0u32; n];
+    match shape {
+        0 => { // geometric
+            let ratio = 1.0 + (rng.below(200) as f64) / 100.0;
+            let mut x = (1u64 << rng.below(25)) as f64;
+            for i in 0..n { v[i] = (x as u64).min(1 << 24) as u32; x /= ratio; if x < 1.0 { x = if rng.chance(1, 2) { 1.0 } else { 0.0 }; } }
+        }
+        1 => { // Fibonacci-like, shuffled or not
+            let kind = rng.below(4);
+            let off = rng.below(6);
+            let len = rng.range(2, 34.min(n as u64));
+            for i in 0..len as usize { v[i] = fib_like(kind, i as u64 + off).min(1 << 24) as u32; }
+            if rng.chance(1, 2) { for i in (1..n).rev() { let j = rng.below(i as u64 + 1) as usize; v.swap(i, j); } }
+        }
+        2 => { let c = big(rng, 25); for x in v.iter_mut() { *x = c; } } // flat
+        3 => { // sparse
+            let k = rng.range(2, 12.min(n as u64));
+            for _ in 0..k { let i = rng.below(n as u64) as usize; v[i] = big(rng, 25); }
+        }
+        4 => { // runs of equal counts and zeros (drives the RLE codes and their chaining)
+            let mut i = 0;
+            while i < n {
+                let r = *rng.pick(&[1u64, 2, 3, 4, 5, 6, 7, 8, 10, 11, 12, 13, 30, 43, 44, 75, 139, 140, 171, 300]) as usize;
+                let c = if rng.chance(2, 5) { 0 } else { big(rng, 16) };
+                for j in i..(i + r).min(n) { v[j] = c; }
+                i += r;
+            }
+        }
+        5 => { for x in v.iter_mut() { *x = rng.below(4) as u32; } } // tiny counts
+        6 => { for x in v.iter_mut() { *x = if rng.chance(1, 3) { 0 } else { (1u64 << rng.below(25)).min(1 << 24) as u32 }; } } // powers of two
+        _ => { for x in v.iter_mut() { *x = if rng.chance(1, 4) { 0 } else { big(rng, 25) }; } }
+    }
+    for x in v.iter_mut() { if *x > 1 << 24 { *x = 1 << 24; } }
+    cap_total(&mut v, 1 << 30);
+    if v.iter().filter(|x| **x != 0).count() < 2 && rng.chance(9, 10) {
+        let i = rng.below(n as u64) as usize; v[i] = v[i].max(1);
+        let j = (i + 1 + rng.below(n as u64 - 1) as usize) % n; v[j] = v[j].max(2);
+    }
+    v
+}
+
+fn random_depths(rng: &mut Rng, valid: bool) -> Vec<u8> {
+    let n = *rng.pick(&[1u64, 2, 5, 18, 30, 51, 60, 256, 704]) as usize;
+    let mut d = vec![];
+    while d.len() < n {
+        let r = *rng.pick(&[1u64, 1, 1, 2, 3, 4, 5, 6, 7, 8, 9, 10, 11, 12, 20, 50, 100, 300]) as usize;
+        let x = if rng.chance(2, 5) { 0 } else if valid { rng.range(1, 15) as u8 } else { rng.below(256) as u8 };
+        for _ in 0..r { d.push(x); }
+    }
+    d.truncate(n);
+    d
+}
+
+fn lines_for(h: &[u32], rng: &mut Rng, out: &mut Vec<(String, String)>) {
+    let n = h.len();
+    let hs = show(h);
+    fn push(out: &mut Vec<(String, String)>, l: String) { let a = answer(&l); out.push((l, a)); }
+    let nz = h.iter().filter(|x| **x != 0).count();
+    if nz >= 1 {
+        let l = format!("huff tree 15 {}", hs);
+        let a = answer(&l);
+        if nz >= 2 && a != "panic" {
+            out.push((format!("huff symbols {}", a), answer(&format!("huff symbols {}", a))));
+            out.push((format!("huff rle {}", a), answer(&format!("huff rle {}", a))));
+            out.push((format!("huff store {}", a), answer(&format!("huff store {}", a))));
+        }
+        out.push((l, a));
+        if n <= 18 { let l = format!("huff tree 5 {}", hs); let a = answer(&l); out.push((l, a)); }
+        if rng.chance(1, 4) { let l = format!("huff tree {} {}", rng.range(10, 14), hs); let a = answer(&l); out.push((l, a)); }
+    }
+    let mut mb = 0usize;
+    while n > 1 && ((n - 1) >> mb) != 0 { mb += 1; }
+    push(out, format!("huff fast {} {}", mb, hs));
+    if HAVE_BUILD { push(out, format!("huff build {} {}", if rng.chance(3, 4) { n } else { 704 }, hs)); }
+    push(out, format!("huff optrle {}", hs));
+}
+
+// ---------------------------------------------------------------- the run
+
+struct Part { lines: Vec<(String, String)>, rep: Report }
+
 pub fn run_cmd(args: &Args) {
-    let corr = Corr::new(&args.out);
-    let rep = Report::default();
+    let thorough = args.tier == "thorough";
+    let seed = args.seed;
+    // panics of the code under test are observations (caught by `quiet`), not noise on stderr
+    std::panic::set_hook(Box::new(|_| {}));
+    let mut corr = Corr::new(&args.out);
+    let mut rep = Report::default();
+    rep.add(if HAVE_BUILD { "hook.build_and_store_huffman_tree.present" } else { "hook.build_and_store_huffman_tree.absent" }, 1);
+
+    // 0. corpus
+    if let Ok(rd) = std::fs::read_dir("/verif/corpus/huff") {
+        let mut files: Vec<_> = rd.filter_map(|e| e.ok()).map(|e| e.path()).collect();
+        files.sort();
+        for f in files {
+            if let Ok(txt) = std::fs::read_to_string(&f) {
+                for line in txt.lines().map(|l| l.trim()).filter(|l| l.starts_with("huff ")) {
+                    corr.case(line, &answer(line));
+                    let t: Vec<&str> = line.split(' ').collect();
+                    if t.len() == 4 && (t[1] == "tree" || t[1] == "build" || t[1] == "fast") {
+                        let h: Vec<u32> = parse_list(t[3]).iter().map(|x| *x as u32).collect();
+                        judge(&mut rep, &h, false);
+                    }
+                    rep.count("corpus.lines");
+                }
+            }
+        }
+    }
+
+    // 1. the known wrap witness: 512 symbols, 2^24 - 1 once and 2^24 for the other 511
+    {
+        let mut w = vec![16777216u32; 512];
+        w[0] = 16777215;
+        let l = format!("huff tree 15 {}", show(&w));
+        corr.case(&l, &answer(&l));
+        let l = format!("huff fast 9 {}", show(&w));
+        corr.case(&l, &answer(&l));
+        judge(&mut rep, &w, true);
+        rep.count("witness.count_sum_wraps_u32");
+    }
+
+    // 2. exhaustive small alphabets: digest lines + oracle on every vector of the blocks
+    let mut blocks: Vec<(usize, u64, u64)> = vec![];
+    for nsym in 1..=6usize {
+        let total = 13u64.pow(nsym as u32);
+        let bs = 2000u64;
+        let stride = if thorough || nsym <= 4 { bs } else if nsym == 5 { 10 * bs } else { 60 * bs };
+        let mut lo = 0;
+        while lo < total { blocks.push((nsym, lo, (lo + bs).min(total))); lo += stride; }
+    }
+    let nb = blocks.len();
+    let blocks2 = blocks.clone();
+    let parts = par_tasks(nb, move |i| {
+        let (nsym, lo, hi) = blocks2[i];
+        let mut rep = Report::default();
+        let l = format!("huff exh {} {} {} {}", nsym, lo, hi, if HAVE_BUILD { 1 } else { 0 });
+        let a = answer(&l);
+        for idx in lo..hi { judge(&mut rep, &exh_vector(nsym, idx), false); }
+        rep.add("exhaustive.vectors", hi - lo);
+        Part { lines: vec![(l, a)], rep }
+    });
+    for p in parts { for (l, a) in p.lines { corr.case(&l, &a); } rep.merge(p.rep); }
+
+    // 3. 18-symbol skews, limit 5 (oracle on all; a correspondence line for every k-th)
+    let step = if thorough { 1 } else { 9 };
+    let parts = par_tasks(16, move |t| {
+        let mut rep = Report::default();
+        let mut lines = vec![];
+        let mut id = t as u64;
+        while id < SKEW18_COUNT {
+            let v = skew18(id);
+            judge(&mut rep, &v, false);
+            rep.count("skew18.cases");
+            if id % step == 0 {
+                let l = format!("huff tree 5 {}", show(&v));
+                let a = answer(&l);
+                lines.push((l, a));
+                if id % (step * 4) == 0 {
+                    let l = format!("huff tree 15 {}", show(&v)); let a = answer(&l);
+                    if a != "panic" { let l2 = format!("huff store {}", a); let a2 = answer(&l2); lines.push((l2, a2)); }
+                    lines.push((l, a));
+                }
+            }
+            id += 16;
+        }
+        Part { lines, rep }
+    });
+    for p in parts { for (l, a) in p.lines { corr.case(&l, &a); } rep.merge(p.rep); }
+
+    // 4. random alphabets 2..704
+    let ncases = if thorough { 24000 } else { 1000 };
+    let parts = par_tasks(64, move |t| {
+        let mut rng = Rng::new(seed ^ 0x68756666 ^ ((t as u64) << 20));
+        let mut rep = Report::default();
+        let mut lines = vec![];
+        for _ in 0..ncases / 64 + 1 {
+            let h = random_histogram(&mut rng);
+            judge(&mut rep, &h, false);
+            lines_for(&h, &mut rng, &mut lines);
+            rep.count("random.cases");
+        }
+        Part { lines, rep }
+    });
+    for p in parts { for (l, a) in p.lines { corr.case(&l, &a); } rep.merge(p.rep); }
+
+    // 5. depth vectors that did not come from the builder, and malformed ones (correspondence only)
+    let nmal = if thorough { 4000 } else { 400 };
+    let parts = par_tasks(16, move |t| {
+        let mut rng = Rng::new(seed ^ 0x6d616c ^ ((t as u64) << 20));
+        let mut lines = vec![];
+        let mut rep = Report::default();
+        for _ in 0..nmal / 16 + 1 {
+            let valid = rng.chance(3, 4);
+            let d = random_depths(&mut rng, valid);
+            for op in ["rle", "symbols", "store"] {
+                let l = format!("huff {} {}", op, show(&d));
+                let a = answer(&l);
+                if a == "panic" { rep.count("malformed.panic_lines"); }
+                lines.push((l, a));
+            }
+            // RLE of arbitrary valid depth vectors expands back (no Kraft assumption needed)
+            if valid {
+                if let Some((s, e)) = real_rle(&d) {
+                    rep.evaluations += 1;
+                    match rfc_expand(&s, &e) {
+                        Ok(x) if x == trimmed(&d) => { rep.count("rle.free_vectors_expand_back"); }
+                        _ => rep.violation("huff:rle-expand", "RLE entries of a free depth vector expand to a different vector", format!("{{\"kind\": \"rle\", \"depths\": {}}}", jstr(&show(&d)))),
+                    }
+                }
+            }
+        }
+        for l in ["huff tree 15 0,0,0", "huff tree 15 -", "huff tree 15 7", "huff symbols 16", "huff symbols -", "huff rle -", "huff store -", "huff store 0,0,0", "huff fast 3 -", "huff fast 0 1", "huff optrle -", "huff tree 15 4294967295,1,1", "huff tree 15 2147483647,2147483648,2147483648"] {
+            if t == 0 { let a = answer(l); lines.push((l.to_string(), a)); }
+        }
+        Part { lines, rep }
+    });
+    for p in parts { for (l, a) in p.lines { corr.case(&l, &a); } rep.merge(p.rep); }
+
+    rep.sample(format!("blocks {} skew18 {} random {} malformed {}", nb, SKEW18_COUNT, ncases, nmal));
     corr.finish();
     rep.write(&args.out);
 }
